@@ -131,9 +131,19 @@ func singleDeletes(w *drv.World) []string {
 	return ls
 }
 
+// firstLast returns a delete of the first and the last live message of the
+// newest segment when something survives in between.
+func firstLast(w *drv.World) []string {
+	if l := segmentLive(w, -1); len(l) >= 3 {
+		return []string{delLetter([]int64{l[0], l[len(l)-1]})}
+	}
+	return nil
+}
+
 func coreLetters(w *drv.World) []string {
 	ls := pubs(w, maxMsgs, 0, 1, 2, 3)
 	ls = append(ls, singleDeletes(w)...)
+	ls = append(ls, firstLast(w)...)
 	if len(w.M.Live) > 1 {
 		ls = append(ls, delLetter(liveOffsets(w)))
 	}
@@ -145,7 +155,8 @@ func coreLetters(w *drv.World) []string {
 }
 
 func tailLetters(w *drv.World) []string {
-	ls := pubs(w, maxMsgs, 0, 1, 2)
+	ls := pubs(w, maxMsgs, 0, 1, 2, 3)
+	ls = append(ls, firstLast(w)...)
 	if n := len(w.M.Live); n > 0 {
 		ls = append(ls, "D:"+itoa(w.M.Live[n-1].Off), "D:"+itoa(w.M.Live[0].Off))
 		ls = append(ls, delLetter(liveOffsets(w)))
@@ -337,7 +348,7 @@ func kvLetters(max int) func(w *drv.World) []string {
 			for _, k := range []int{0, 1, 2} {
 				ls = append(ls, fmt.Sprintf("P:%d/1/u", k), fmt.Sprintf("P:%d/1/n", k))
 			}
-			ls = append(ls, "P:0/0/u", "P:0/0/n")
+			ls = append(ls, "P:0/0/u", "P:0/0/n", "P:0/-1/u", "P:0/-1/n", "P:1/-2/n")
 		}
 		ls = append(ls, singleDeletes(w)...)
 		ls = append(ls, "R:", "L")
@@ -441,11 +452,11 @@ func init() {
 		AtClose: func(w *drv.World) { w.CheckIndexFiles(); w.IndexSubsets(true) },
 	})
 	Register(&Family{
-		Name: "del", Cfgs: []drv.Cfg{cfgBoth, withVer(cfgNone, 1), withKeep(cfgKeys, true)}, Letters: delLetters, Leaves: delLeaves,
+		Name: "del", Charge: "C12", Cfgs: []drv.Cfg{cfgBoth, withVer(cfgNone, 1), withKeep(cfgKeys, true)}, Letters: delLetters, Leaves: delLeaves,
 		Depth: map[string]int{"quick": 5, "thorough": 6}, Obs: drv.ObsWalk | drv.ObsNext | drv.ObsGet | drv.ObsStat, KeySet: []int{0, 1},
 	})
 	Register(&Family{
-		Name: "trim", Cfgs: []drv.Cfg{cfgBoth, cfgNone, withVer(cfgTimes, 1)}, Letters: timesLetters, Leaves: trimLeaves,
+		Name: "trim", Charge: "C15", Cfgs: []drv.Cfg{cfgBoth, cfgNone, withVer(cfgTimes, 1)}, Letters: timesLetters, Leaves: trimLeaves,
 		Depth: map[string]int{"quick": 4, "thorough": 5}, Obs: drv.ObsTrim | drv.ObsWalk | drv.ObsNext, LeafObs: drv.ObsWalk | drv.ObsNext | drv.ObsStat, KeySet: []int{0},
 	})
 	Register(&Family{
@@ -453,7 +464,7 @@ func init() {
 		Depth: map[string]int{"quick": 4, "thorough": 5}, Obs: drv.ObsWalk | drv.ObsNext | drv.ObsKey, KeySet: []int{0, 1, 2},
 	})
 	Register(&Family{
-		Name: "versions", Cfgs: append(allIdx(1), allIdx(2)...), Letters: versionLetters,
+		Name: "versions", Charge: "C17", Cfgs: append(allIdx(1), allIdx(2)...), Letters: versionLetters,
 		Depth: map[string]int{"quick": 4, "thorough": 5}, Obs: drv.ObsAll &^ drv.ObsTrim, KeySet: []int{0, 1},
 		Before: func(w *drv.World) any { return [2]any{w.SnapVersions(), w.Cfg.Keep} },
 		After: func(w *drv.World, letter string, before any) {
